@@ -88,8 +88,9 @@ class Spec:
                  modifies=(), loops=None, inline=False, locals=None, pure=False, hints=(),
                  trusted=False, fresh=(), cases=None, at=None, ghost=None, ghost_calls=None, reveal=(), bind=None, decreases=None,
                  region=None, let=None, abstract=None, negative_indices=False,
-                 frame_axiom=False, ensures_local=()):
+                 frame_axiom=False, ensures_local=(), denotes=None):
         self.qual = qual
+        self.denotes = denotes          # name of the mathematical function this PURE float function computes (see Registry.add)
         self.params = params            # ordered dict name -> kind text
         self.returns = returns
         self.requires, self.ensures, self.aux = list(requires), list(ensures), list(aux)
@@ -145,7 +146,38 @@ class Registry:
         self.specs[key] = spec
         if variant is not None:
             self.variants.setdefault(spec.qual, []).append(spec)
+        if spec.denotes:
+            self._add_denotation(spec)
         return spec
+
+    def _add_denotation(self, spec):
+        """`denotes=NAME`: the function is a pure function of float arguments (checked syntactically when its own
+        contract is verified: obligation `pure-function`), so it computes a mathematical function NAME of its
+        arguments.  Call sites learn `result == NAME(args)`; specifications may mention NAME(...); and every exported
+        postcondition, proved for all arguments satisfying the preconditions, becomes an axiom of NAME."""
+        names = list(spec.params)
+        den = z3.Function(spec.denotes, *([z3.RealSort()] * (len(names) + 1)))
+        spec.den_fn = den
+        reg = self
+
+        def sf(ex, st, *args):
+            return vfloat(den(*[to_float(a)[1] for a in args]))
+
+        def provider():
+            fi = reg.index.funcs[spec.qual]
+            ctx = Ctx(reg, "axiom:" + spec.denotes)
+            sub = Executor(ctx, fi, spec)
+            sub.spec_mode = True
+            xs = [z3.Real("%s!d" % n) for n in names]
+            st = State({n: vfloat(x) for n, x in zip(names, xs)}, {}, TRUE)
+            sub.old_state = st
+            sub.result = vfloat(den(*xs))
+            req = and_(*[sub.eval_spec(r[1] if isinstance(r, tuple) else r, st) for r in spec.requires])
+            ens = and_(*[sub.eval_spec(e[1] if isinstance(e, tuple) else e, st) for e in spec.ensures])
+            return [z3.ForAll(xs, implies(req, ens), patterns=[den(*xs)])]
+
+        self.specfuncs[spec.denotes] = sf
+        self.axioms.append((spec.denotes, provider))
 
     def add_harness(self, name, source):
         """A proof harness: a few lines of Python (in the spec file) that only SEQUENCE calls of real repository
@@ -957,7 +989,13 @@ class Executor:
         for g, ktxt in spec.ghost.items():
             src = None
             if self.spec is not None:
-                src = self.spec.ghost_calls.get(fi.short, {}).get(g)
+                # "callee#n" (n-th call of that callee in source order) takes precedence over "callee"
+                occ = self.call_occurrence(node)
+                gc = self.spec.ghost_calls
+                if occ is not None and ("%s#%d" % (fi.short, occ[1])) in gc:
+                    src = gc["%s#%d" % (fi.short, occ[1])].get(g)
+                if src is None:
+                    src = gc.get(fi.short, {}).get(g)
             if src is not None:
                 saved = self.spec_mode
                 self.spec_mode = True
@@ -1032,6 +1070,8 @@ class Executor:
         for fact in basic_facts(res):
             self.ctx.hyps.append(fact)
         sub.result = res
+        if spec.denotes:
+            self.ctx.assume(st, to_float(res)[1] == spec.den_fn(*[to_float(formals[n])[1] for n in spec.params]))
         defs = None
         if not spec.modifies and not spec.fresh and res.terms:
             defs = [str(t) for t in res.terms]
@@ -1040,21 +1080,26 @@ class Executor:
         st.heap = post.heap
         if self is self.ctx.top_exec and not self.spec_mode and isinstance(node, ast.Call):
             # ghost name for the result of the n-th call (source order) of this callee: ret<n>_<name>, for hints
-            occ = self.__dict__.get("_call_occ")
-            if occ is None:
-                occ, cnt = {}, {}
-                calls = [x for x in ast.walk(self.fi.node) if isinstance(x, ast.Call)]
-                for c in sorted(calls, key=lambda x: (x.lineno, x.col_offset)):
-                    f = c.func
-                    nm = f.id if isinstance(f, ast.Name) else (f.attr if isinstance(f, ast.Attribute) else None)
-                    if nm:
-                        cnt[nm] = cnt.get(nm, 0) + 1
-                        occ[id(c)] = (nm, cnt[nm])
-                self._call_occ = occ
-            if id(node) in occ and res.terms:
-                nm, k = occ[id(node)]
+            o = self.call_occurrence(node)
+            if o is not None and res.terms:
+                nm, k = o
                 st.vars["ret%d_%s" % (k, nm.lstrip("_"))] = res
         return res
+
+    def call_occurrence(self, node):
+        """(callee name, n) when `node` is the n-th call of that name in this function's source order"""
+        occ = self.__dict__.get("_call_occ")
+        if occ is None:
+            occ, cnt = {}, {}
+            calls = [x for x in ast.walk(self.fi.node) if isinstance(x, ast.Call)]
+            for c in sorted(calls, key=lambda x: (x.lineno, x.col_offset)):
+                f = c.func
+                nm = f.id if isinstance(f, ast.Name) else (f.attr if isinstance(f, ast.Attribute) else None)
+                if nm:
+                    cnt[nm] = cnt.get(nm, 0) + 1
+                    occ[id(c)] = (nm, cnt[nm])
+            self._call_occ = occ
+        return occ.get(id(node))
 
     def raise_exc(self, st, exc, node):
         """A path raises `exc`: allowed only if the top-level contract says so."""
